@@ -414,6 +414,29 @@ func GenProject(t *tape.Tape, o Options) *Project {
 		f.Path = strings.ReplaceAll(pkg, ".", "/") + "/" + name + ".java"
 		f.Text = strings.Join(b, "\n") + "\n"
 		p.Files = append(p.Files, f)
+		if t.Bool(1, 2) {
+			// a class of the same package using the enum by its bare name
+			un := name + "Painter"
+			text := "package " + pkg + ";\n\npublic class " + un + " {\n    private " + name + " current = " + name + ".OPEN;\n\n    public " + name + " parse(String s) {\n        " + name + " v = " + name + ".valueOf(s);\n        if (v == " + name + ".CLOSED) {\n            return " + name + ".OPEN;\n        }\n        return v;\n    }\n}\n"
+			u := &JFile{ID: fmt.Sprintf("f%d", len(p.Files)), Pkg: pkg, Name: un, Kind: "class", Text: text}
+			u.Path = strings.ReplaceAll(pkg, ".", "/") + "/" + un + ".java"
+			p.Files = append(p.Files, u)
+		}
+	}
+	if o.ServiceMethod && t.Bool(1, 2) {
+		// a service interface with a @ServiceMethod method, an implementor that imports it (coca reports
+		// its method as an API), and a class implementing an interface it does not import that has a
+		// method of the same name (no API): what the first leaves behind must not reach the second
+		pkgs2 := []string{g.classes[t.Pick(len(g.classes))].pkg, g.classes[t.Pick(len(g.classes))].pkg, g.classes[t.Pick(len(g.classes))].pkg}
+		m := g.pick(methodNames)
+		mk := func(pkg, name, text string) {
+			f := &JFile{ID: fmt.Sprintf("f%d", len(p.Files)), Pkg: pkg, Name: name, Kind: "class", Text: text}
+			f.Path = strings.ReplaceAll(pkg, ".", "/") + "/" + name + ".java"
+			p.Files = append(p.Files, f)
+		}
+		mk(pkgs2[0], "RemoteOrders", "package "+pkgs2[0]+";\n\npublic interface RemoteOrders {\n    @ServiceMethod\n    String "+m+"(String id);\n}\n")
+		mk(pkgs2[1], "RemoteOrdersImpl", "package "+pkgs2[1]+";\n\nimport "+pkgs2[0]+".RemoteOrders;\n\npublic class RemoteOrdersImpl implements RemoteOrders {\n    @Override\n    public String "+m+"(String id) {\n        return id;\n    }\n}\n")
+		mk(pkgs2[2], "LocalWorker", "package "+pkgs2[2]+";\n\npublic class LocalWorker implements LocalSpec {\n    public String "+m+"(String id) {\n        return id;\n    }\n\n    public void tick() {\n    }\n}\n")
 	}
 	if o.Enums && t.Bool(1, 3) {
 		// an annotation type: annotated itself, no class or interface body
@@ -512,6 +535,8 @@ func (g *gctx) genFile(fi int) *JFile {
 					base = "/api/v1/" + strings.ToLower(ci.name)
 				case 1:
 					base = "/api/" + strings.ToLower(ci.name) + "/" // trailing slash: concatenated as written
+				case 2:
+					base = "api/" + strings.ToLower(ci.name) // no leading slash (Spring adds it at run time; reported as written)
 				}
 				f.Annotations = append(f.Annotations, fmt.Sprintf("@RequestMapping(%q)", base))
 			case 2:
